@@ -97,68 +97,82 @@ structure ReadLaw (C : Codec) : Prop where
   prob : ∀ tok lp, C.parseP tok = some lp → C.zero ≤ lp ∧ lp ≤ 0
   zero : C.zero ≤ 0
 
-theorem readTrans_inv {C : Codec} {n : Nat} {g g' : Fsg} {toks : List String} (h : RdInv n C.zero g)
-    (e : readTrans C g toks = .ok g') :
-    RdInv n C.zero g' ∧ (ReadLaw C → NullWF g → NullGe C.zero g → NullWF g' ∧ NullGe C.zero g') := by
+/-- what a successful `readTrans` did -/
+theorem readTrans_ok {C : Codec} {g g' : Fsg} {toks : List String} (e : readTrans C g toks = .ok g') :
+    ∃ f t p rest i j lp, toks = f :: t :: p :: rest ∧ stateTok C g.nState f = some i ∧ stateTok C g.nState t = some j ∧
+      C.parseP p = some lp ∧
+      ((rest = [] ∧ g' = (nullAdd g i j lp).1) ∨
+       (∃ w tl, rest = w :: tl ∧ g' = transAdd (wordAdd g w).1 i j lp (wordAdd g w).2)) := by
   unfold readTrans at e
-  match toks, e with
-  | f :: t :: p :: rest, e =>
+  cases toks with
+  | nil => simp at e
+  | cons f r1 =>
     simp only at e
     cases hf : stateTok C g.nState f with
     | none => simp [hf] at e
     | some i =>
-      cases ht : stateTok C g.nState t with
-      | none => simp [hf, ht] at e
-      | some j =>
-        cases hp : C.parseP p with
-        | none => simp [hf, ht, hp] at e
-        | some lp =>
-          have hi := h.nState ▸ stateTok_lt hf
-          have hj := h.nState ▸ stateTok_lt ht
-          simp only [hf, ht, hp] at e
-          cases rest with
-          | nil =>
-            simp only [Except.ok.injEq] at e
-            subst e
-            exact ⟨nullAdd_inv h hi hj lp, fun law wf ge =>
-              ⟨nullWF_nullAdd wf i j (law.prob p lp hp).2, nullGe_nullAdd ge i j (law.prob p lp hp).1⟩⟩
-          | cons w _ =>
-            simp only [Except.ok.injEq] at e
-            subst e
-            have hw := wordAdd_inv h w
-            have hid := (wordAdd_spec g w).2.1
-            exact ⟨transAdd_inv hw hi hj lp hid, fun _ wf ge =>
-              ⟨nullWF_transAdd (nullWF_congr (wordAdd_links g w) wf) _ _ _ _,
-               nullGe_transAdd (fun l hl => ge l (wordAdd_links g w ▸ hl)) _ _ _ _⟩⟩
-  | [], e => by simp at e
-  | [_], e => by
-    simp only at e
-    split at e <;> simp at e
-  | [_, _], e => by
-    simp only at e
-    split at e
-    · simp at e
-    · split at e <;> simp at e
+      simp only [hf] at e
+      cases r1 with
+      | nil => simp at e
+      | cons t r2 =>
+        simp only at e
+        cases ht : stateTok C g.nState t with
+        | none => simp [ht] at e
+        | some j =>
+          simp only [ht] at e
+          cases r2 with
+          | nil => simp at e
+          | cons p r3 =>
+            simp only at e
+            cases hp : C.parseP p with
+            | none => simp [hp] at e
+            | some lp =>
+              simp only [hp] at e
+              cases r3 with
+              | nil =>
+                simp only [Except.ok.injEq] at e
+                exact ⟨f, t, p, [], i, j, lp, rfl, hf, ht, hp, .inl ⟨rfl, e.symm⟩⟩
+              | cons w tl =>
+                simp only [Except.ok.injEq] at e
+                exact ⟨f, t, p, w :: tl, i, j, lp, rfl, hf, ht, hp, .inr ⟨w, tl, rfl, e.symm⟩⟩
+
+theorem readTrans_inv {C : Codec} {n : Nat} {g g' : Fsg} {toks : List String} (h : RdInv n C.zero g)
+    (e : readTrans C g toks = .ok g') :
+    RdInv n C.zero g' ∧ g'.start = g.start ∧ g'.final = g.final ∧
+    (ReadLaw C → NullWF g → NullGe C.zero g → NullWF g' ∧ NullGe C.zero g') := by
+  obtain ⟨f, t, p, rest, i, j, lp, _, hf, ht, hp, hcase⟩ := readTrans_ok e
+  have hi := h.nState ▸ stateTok_lt hf
+  have hj := h.nState ▸ stateTok_lt ht
+  rcases hcase with ⟨_, rfl⟩ | ⟨w, tl, _, rfl⟩
+  · exact ⟨nullAdd_inv h hi hj lp, (nullAdd_start _ _ _ _).1, (nullAdd_start _ _ _ _).2.1, fun law wf ge =>
+      ⟨nullWF_nullAdd wf i j (law.prob p lp hp).2, nullGe_nullAdd ge i j (law.prob p lp hp).1⟩⟩
+  · have hw := wordAdd_inv h w
+    have ws := wordAdd_spec g w
+    have tf := transAdd_fields (wordAdd g w).1 i j lp (wordAdd g w).2
+    exact ⟨transAdd_inv hw hi hj lp ws.2.1, tf.1.trans ws.2.2.2.2.2.1, tf.2.1.trans ws.2.2.2.2.2.2, fun _ wf ge =>
+      ⟨nullWF_transAdd (nullWF_congr (wordAdd_links g w) wf) _ _ _ _,
+       nullGe_transAdd (fun l hl => ge l (wordAdd_links g w ▸ hl)) _ _ _ _⟩⟩
 
 theorem readLines_inv {C : Codec} {n : Nat} : ∀ (lines : List (List String)) (g g' : Fsg), RdInv n C.zero g →
     readLines C g lines = .ok g' →
-    RdInv n C.zero g' ∧ (ReadLaw C → NullWF g → NullGe C.zero g → NullWF g' ∧ NullGe C.zero g')
+    RdInv n C.zero g' ∧ g'.start = g.start ∧ g'.final = g.final ∧
+    (ReadLaw C → NullWF g → NullGe C.zero g → NullWF g' ∧ NullGe C.zero g')
   | [], g, g', h, e => by
-    simp only [readLines, Except.ok.injEq] at e; subst e; exact ⟨h, fun _ a b => ⟨a, b⟩⟩
+    simp only [readLines, Except.ok.injEq] at e; subst e; exact ⟨h, rfl, rfl, fun _ a b => ⟨a, b⟩⟩
   | [] :: rest, g, g', h, e => by
     rw [readLines] at e; exact readLines_inv rest g g' h e
   | (w :: toks) :: rest, g, g', h, e => by
     rw [readLines] at e
     split at e
-    · simp only [Except.ok.injEq] at e; subst e; exact ⟨h, fun _ a b => ⟨a, b⟩⟩
+    · simp only [Except.ok.injEq] at e; subst e; exact ⟨h, rfl, rfl, fun _ a b => ⟨a, b⟩⟩
     · split at e
       · cases ht : readTrans C g toks with
         | error x => simp [ht] at e
         | ok g1 =>
           simp only [ht] at e
-          obtain ⟨i1, w1⟩ := readTrans_inv h ht
-          obtain ⟨i2, w2⟩ := readLines_inv rest g1 g' i1 e
-          exact ⟨i2, fun law a b => by obtain ⟨a1, b1⟩ := w1 law a b; exact w2 law a1 b1⟩
+          obtain ⟨i1, s1, f1, w1⟩ := readTrans_inv h ht
+          obtain ⟨i2, s2, f2, w2⟩ := readLines_inv rest g1 g' i1 e
+          exact ⟨i2, s2.trans s1, f2.trans f1, fun law a b => by obtain ⟨a1, b1⟩ := w1 law a b; exact w2 law a1 b1⟩
       · exact readLines_inv rest g g' h e
 
 /-! the closure keeps arcs in range -/
@@ -208,54 +222,89 @@ theorem closureLoop_range {z : Int} {n : Nat} : ∀ (fuel : Nat) (g : Fsg) (null
     · exact ih _ _ hp
     · exact hp
 
+/-- what a successful `read` did -/
+theorem read_ok {C : Codec} {lines : List (List String)} {g : Fsg} (e : read C lines = .ok g) :
+    ∃ (name : String) (n : Int) (s f : Nat) (l4 : List (List String)) (g0 : Fsg), 0 ≤ n ∧ s < n.toNat ∧ f < n.toNat ∧
+      readLines C (Fsg.init name n.toNat s f C.zero) l4 = .ok g0 ∧ g = closure g0 := by
+  unfold read at e
+  cases h1 : headerValue "FSG_BEGIN" none lines with
+  | mk o1 l1 =>
+    cases o1 with
+    | none => simp [h1] at e
+    | some name =>
+      simp only [h1] at e
+      cases h2 : headerValue "NUM_STATES" (some "N") l1 with
+      | mk o2 l2 =>
+        cases o2 with
+        | none => simp [h2] at e
+        | some nTok =>
+          simp only [h2] at e
+          cases h3 : C.parseN nTok with
+          | none => simp [h3] at e
+          | some n =>
+            simp only [h3] at e
+            by_cases hn : n < 0
+            · simp [hn] at e
+            · simp only [hn, if_false] at e
+              cases h4 : headerValue "START_STATE" (some "S") l2 with
+              | mk o4 l3 =>
+                cases o4 with
+                | none => simp [h4] at e
+                | some sTok =>
+                  simp only [h4] at e
+                  cases h5 : stateTok C n.toNat sTok with
+                  | none => simp [h5] at e
+                  | some s =>
+                    simp only [h5] at e
+                    cases h6 : headerValue "FINAL_STATE" (some "F") l3 with
+                    | mk o6 l4 =>
+                      cases o6 with
+                      | none => simp [h6] at e
+                      | some fTok =>
+                        simp only [h6] at e
+                        cases h7 : stateTok C n.toNat fTok with
+                        | none => simp [h7] at e
+                        | some f =>
+                          simp only [h7] at e
+                          cases h8 : readLines C (Fsg.init name n.toNat s f C.zero) l4 with
+                          | error x => simp [h8] at e
+                          | ok g0 =>
+                            simp only [h8, Except.ok.injEq] at e
+                            exact ⟨name, n, s, f, l4, g0, by omega, stateTok_lt h5, stateTok_lt h7, h8, e.symm⟩
+
 /-- **What the reader returns is well-formed.** -/
 theorem read_wf {C : Codec} {lines : List (List String)} {g : Fsg} (e : read C lines = .ok g) :
     g.start < g.nState ∧ g.final < g.nState ∧ InRange g ∧ VocOK g ∧ g.vocab.Nodup ∧ g.logZero = C.zero ∧
     g.sil = [] ∧ g.alt = [] ∧ (ReadLaw C → ClosureWF g ∧ NullClosed g) := by
-  unfold read at e
-  repeat' split at e
-  all_goals try (exact absurd e (by simp))
-  rename_i name l1 _ nTok l2 _ n _ hn sTok l3 _ s hs fTok l4 _ f hf _ g0 hrl
-  simp only [Except.ok.injEq] at e
-  subst e
-  have hs' := stateTok_lt hs
-  have hf' := stateTok_lt hf
+  obtain ⟨name, n, s, f, l4, g0, _, hs, hf, hrl, rfl⟩ := read_ok e
   have inv0 : RdInv n.toNat C.zero (Fsg.init name n.toNat s f C.zero) :=
     ⟨rfl, fun _ h => (by cases h), fun _ h => (by cases h), List.nodup_nil, rfl, rfl, rfl⟩
-  obtain ⟨inv, wf⟩ := readLines_inv l4 _ g0 inv0 hrl
-  have same := closure_same g0
-  obtain ⟨wl, sn, ss, sf, sv, ssil, salt, _, sz⟩ := same
-  have hstart : g0.start = s := by
-    have : ∀ (lines : List (List String)) (g g' : Fsg), readLines C g lines = .ok g' → g'.start = g.start ∧ g'.final = g.final := by
-      intro lines
-      induction lines with
-      | nil => intro g g' e; simp only [readLines, Except.ok.injEq] at e; subst e; exact ⟨rfl, rfl⟩
-      | cons ln rest ih =>
-        intro g g' e
-        cases ln with
-        | nil => rw [readLines] at e; exact ih g g' e
-        | cons w toks =>
-          rw [readLines] at e
-          split at e
-          · simp only [Except.ok.injEq] at e; subst e; exact ⟨rfl, rfl⟩
-          · split at e
-            · cases ht : readTrans C g toks with
-              | error x => simp [ht] at e
-              | ok g1 =>
-                simp only [ht] at e
-                have h1 := ih g1 g' e
-                have h2 : g1.start = g.start ∧ g1.final = g.final := by
-                  unfold readTrans at ht
-                  repeat' split at ht
-                  all_goals try (exact absurd ht (by simp))
-                  all_goals (simp only [Except.ok.injEq] at ht; subst ht)
-                  · exact ⟨(nullAdd_start _ _ _ _).1, (nullAdd_start _ _ _ _).2.1⟩
-                  · have f := transAdd_fields (wordAdd g ‹String›).1 ‹Nat› ‹Nat› ‹Int› (wordAdd g ‹String›).2
-                    have w := wordAdd_spec g ‹String›
-                    exact ⟨f.1.trans w.2.2.2.2.2.1, f.2.1.trans w.2.2.2.2.2.2⟩
-                exact ⟨h1.1.trans h2.1, h1.2.trans h2.2⟩
-            · exact ih g g' e
-    exact (this l4 _ g0 hrl).1
-  sorry
+  obtain ⟨inv, hst, hfi, wf⟩ := readLines_inv l4 _ g0 inv0 hrl
+  obtain ⟨wl, sn, ss, sf, sv, ssil, salt, _, sz⟩ := closure_same g0
+  have hst' : g0.start = s := hst
+  have hfi' : g0.final = f := hfi
+  refine ⟨by rw [ss, sn, hst', inv.nState]; exact hs, by rw [sf, sn, hfi', inv.nState]; exact hf, ?_, ?_, sv ▸ inv.nodup,
+    sz.trans inv.zero, ssil.trans inv.sil, salt.trans inv.alt, fun law => ?_⟩
+  · intro l hl
+    rw [sn]
+    exact closureLoop_range _ g0 _ inv.range l hl
+  · intro l hl w hw
+    rw [sv]
+    have : l ∈ wordLinks (closure g0) := List.mem_filter.2 ⟨hl, by simp [Link.isNull, hw]⟩
+    rw [wl] at this
+    exact inv.voc l (List.mem_filter.1 this).1 w hw
+  · obtain ⟨w0, g0ge⟩ := wf law (nullWF_init _ _ _ _ _) (fun _ h => (by cases h))
+    have cw : ClosureWF g0 := ⟨w0, inv.zero ▸ g0ge, inv.zero ▸ law.zero⟩
+    exact ⟨closureWF_closure cw, closure_closed cw⟩
+
+/-- every token file is either refused with one of the error kinds or read into a well-formed grammar -/
+theorem read_total (C : Codec) (lines : List (List String)) :
+    (∃ err, read C lines = .error err) ∨ (∃ g, read C lines = .ok g) := by
+  cases h : read C lines with
+  | error err => exact .inl ⟨err, rfl⟩
+  | ok g => exact .inr ⟨g, rfl⟩
+
+theorem kwMatch_iff (tok kw : String) : kwMatch tok kw = true ↔ tok.toList <+: kw.toList := by
+  unfold kwMatch; exact List.isPrefixOf_iff_prefix
 
 end SSVerif.Fsg
